@@ -69,7 +69,16 @@ def _pool_ri(c, P):
     this = c.ghost['processor']
     off, _ = c.mod.field(P, 'mTransitionStorage')
     st = c.ex.ptr_add(this, off)
-    return [('pool-representation-invariant', xt.RI(xt.pool(c.new, st)))]
+    return _pool_ready(c, c.new, st)
+
+
+def _pool_ready(c, view, st):
+    """what the searches over the active pool require: the index triple is ordered and every active slot points at a pool entry"""
+    from . import extended as xt
+    k = z3.BitVec('q_n', 8)
+    p = xt.pool(view, st)
+    return [('pool-representation-invariant', xt.RI(p)),
+            ('active-slots-point-at-pool-entries', z3.ForAll([k], z3.Implies(z3.ULT(k, p['free']), xt.slot(view, st, k) != 0)))]
 
 
 def _count_ri(c, P):
@@ -106,7 +115,9 @@ def _init_pre(c, P):
     d = PROCS[P]
     zi = o['zi']
     # the zone info and its context are valid objects distinct from the processor (flash tables)
-    return [z3.ULE(o['filled'], 1), zi != 0] + ([z3.ULE(o['count'], 5)] if P == B else [])
+    # class invariant of a filled extended cache: the transition pool is in the state its searches require
+    return [z3.ULE(o['filled'], 1), zi != 0] + ([z3.ULE(o['count'], 5)] if P == B else
+                                                [z3.Implies(o['filled'] == 1, z3.And(*[e for _, e in _pool_ready(c, c.old, _storage(c))]))])
 
 
 def _key_of_fields(P, yt, m, d):
@@ -129,7 +140,13 @@ def _init_post(c, P):
             ('failure-leaves-the-cache-invalid', z3.Implies(r == 0, n['filled'] == 0)),
             ('cache-hit-changes-nothing', z3.Implies(hit, z3.And(r == 1, n['key'] == o['key'], n['filled'] == o['filled'], n['count'] == o['count']))),
             ('binding-untouched', n['zi'] == o['zi']),
-            ('flag-is-a-bool', z3.ULE(n['filled'], 1))] + ([('cache-count-within-kMaxCacheEntries', z3.ULE(n['count'], 5))] if P == B else [])
+            ('flag-is-a-bool', z3.ULE(n['filled'], 1))] + ([('cache-count-within-kMaxCacheEntries', z3.ULE(n['count'], 5))] if P == B else
+                                                         [('success:' + l, z3.Implies(r == 1, e)) for l, e in _pool_ready(c, c.new, _storage(c))])
+
+
+def _storage(c):
+    off, _ = c.mod.field(E, 'mTransitionStorage')
+    return c.ex.ptr_add(c.this, off)
 
 
 # ---- the entry points that take an instant: the answer comes from the cache only after the cache has been (re)built for the year of
@@ -177,6 +194,72 @@ for P in (B, E):
 contract(B + '::getTransition(int) const', props=['C02', 'C08'], requires=lambda c: _init_pre(c, B), ensures=_get_transition_post,
          assigns=lambda c: [c.field_addr(c.this, B, PROCS[B]['key']), c.field_addr(c.this, B, PROCS[B]['filled'])] + _cache_region(c, B))
 contract(E + '::init(int) const', props=['C01', 'C08'], requires=lambda c: _init_pre(c, E), ensures=_init_instant_post,
+         assigns=lambda c: [c.field_addr(c.this, E, PROCS[E]['key']), c.field_addr(c.this, E, PROCS[E]['filled'])] + _cache_region(c, E))
+
+# ---- ExtendedZoneProcessor::getOffsetDateTime(ldt) (C07): which transitions decide the answer, and how ---------------------------
+def _total_offset(view, t):
+    """offsetMinutes + deltaMinutes of the Transition at address t (as the code adds them, 16 bits)"""
+    from . import extended as xt
+    f = lambda n: view.load(Ptr(None, t + view.ex.mod.field(xt.TR, n)[0]), 2)
+    return f('offsetMinutes') + f('deltaMinutes')
+
+
+def _god_post(c):
+    """proved at the function's own exit over the calls it made (the function is virtual and reached through TimeZone only, whose
+    model is the environment contract of contracts/timezone.py, so nothing is exported to call sites):
+      - the transition for the wall time is the one TransitionStorage::findTransitionForDateTime returns for THIS ldt (its contract:
+        starts at or before the wall time, successor later -- the later of the two candidates in an overlap);
+      - the instant is that wall time read with that transition's total offset (in a gap: the offset in force before the gap);
+      - the answer is that instant shown with the total offset of the transition TransitionStorage::findTransition returns for it
+        (its contract: in effect at that instant), i.e. OffsetDateTime::forEpochSeconds(instant, offset) -- a normalised value;
+      - error exactly when init() fails or a search finds nothing."""
+    if not c.own:
+        return []
+    from . import zoned, calendar as cal
+    calls = [e for e in c.log if e[0] == 'call']
+    inits = [e for e in calls if e[1].startswith(E + '::init(ace_time::LocalDate const&)')]
+    f1 = [e for e in calls if 'findTransitionForDateTime' in e[1]]
+    f2 = [e for e in calls if '::findTransition(int)' in e[1]]
+    g, goff = zoned.odt_fields_val(c.result)
+    err = zoned.odt_is_error(g, goff)
+    ldt = c.args[1]
+    # the caller's object, read in the memory after init() (it lies outside init()'s frame, so these are its entry values; reading
+    # it there keeps the terms identical to the ones the code read)
+    lf = cal.ldt_fields(c.new, ldt)
+    out = [('asks-init-once', z3.BoolVal(len(inits) == 1))]
+    if len(inits) != 1:
+        return out
+    ok = inits[0][3]
+    if not f1:
+        return out + [('without-a-search-only-after-init-failed', ok == 0), ('init-failure-gives-error', err)]
+    t1 = c.ex.ptr_to_bv(f1[-1][3])
+    out += [('one-wall-time-search', z3.BoolVal(len(f1) == 1)),
+            ('wall-time-search-is-for-this-local-time', c.ex.ptr_to_bv(f1[-1][2][1]) == c.ex.ptr_to_bv(ldt)),
+            ('no-transition-for-the-wall-time-gives-error', z3.Implies(t1 == 0, err))]
+    off1 = _total_offset(c.new, t1)
+    inst = zoned.instant_of(lf, off1)
+    if not f2:
+        return out + [('without-the-second-search-only-when-the-first-found-nothing-or-an-error-offset', z3.Or(t1 == 0, off1 == zoned.ERR_OFF))]
+    t2 = c.ex.ptr_to_bv(f2[-1][3])
+    off2 = _total_offset(c.new, t2)
+    okr = z3.And(t2 != 0, zoned.in_range(f2[-1][2][1], off2), off2 != zoned.ERR_OFF)
+    out += [('one-instant-search', z3.BoolVal(len(f2) == 1)),
+            ('instant-is-the-wall-time-read-with-the-offset-of-its-transition', f2[-1][2][1] == inst),
+            ('no-transition-for-the-instant-gives-error', z3.Implies(t2 == 0, err)),
+            ('answer-has-the-offset-in-effect-at-that-instant', z3.Implies(t2 != 0, goff == off2)),
+            ('answer-is-that-instant-in-that-offset:valid-fields', z3.Implies(okr, cal.ldt_valid(g))),
+            ('answer-is-that-instant-in-that-offset:fields', z3.Implies(okr, cal.ldt_seconds64(g) == sx(f2[-1][2][1], 64) + 60 * sx(off2, 64)))]
+    return out
+
+
+contract(E + '::getOffsetDateTime(ace_time::LocalDateTime const&) const', props=['C07'],
+         requires=lambda c: _init_pre(c, E) + [__import__('contracts.calendar', fromlist=['ldt_valid']).ldt_valid(
+             __import__('contracts.calendar', fromlist=['ldt_fields']).ldt_fields(c.old, c.args[1]))],
+         # the local date-time argument is an object of the caller, disjoint from the processor
+         lang_requires=lambda c: [valid_ptr(c.ex, c.args[1], 6), valid_ptr(c.ex, c.this, c.mod.size_of(c.mod.types['class.ace_time::ExtendedZoneProcessor'])),
+                                  z3.Or(z3.ULE(c.ex.ptr_to_bv(c.args[1]) + 6, c.ex.ptr_to_bv(c.this)),
+                                        z3.ULE(c.ex.ptr_to_bv(c.this) + c.mod.size_of(c.mod.types['class.ace_time::ExtendedZoneProcessor']), c.ex.ptr_to_bv(c.args[1])))],
+         ensures=_god_post,
          assigns=lambda c: [c.field_addr(c.this, E, PROCS[E]['key']), c.field_addr(c.this, E, PROCS[E]['filled'])] + _cache_region(c, E))
 
 # ---- addTransition: the only function that increments the basic processor's transition count keeps it within the cache array ----
